@@ -10,17 +10,21 @@ import (
 	"net/http"
 	"net/http/httptest"
 	"os"
+	"path/filepath"
 	"sort"
 	"strconv"
 	"strings"
 
 	"github.com/LindsayBradford/crem/cmd/cremengine/engine/api"
 	"github.com/LindsayBradford/crem/internal/pkg/annealing/solution"
+	solenc "github.com/LindsayBradford/crem/internal/pkg/annealing/solution/encoding"
 	"github.com/LindsayBradford/crem/internal/pkg/annealing/solution/set"
 	setcsv "github.com/LindsayBradford/crem/internal/pkg/annealing/solution/set/encoding/csv"
 	"github.com/LindsayBradford/crem/internal/pkg/model"
 	marchive "github.com/LindsayBradford/crem/internal/pkg/model/archive"
 	"github.com/LindsayBradford/crem/internal/pkg/model/models/catchment"
+	"github.com/LindsayBradford/crem/internal/pkg/observer"
+	"github.com/LindsayBradford/crem/internal/pkg/scenario"
 	"github.com/LindsayBradford/crem/pkg/logging/loggers"
 	"github.com/LindsayBradford/crem/pkg/threading"
 )
@@ -273,12 +277,45 @@ func c13encClass(enc string) string {
 
 // one summary through a fresh engine; emits the e2e case and evaluates the property on the real responses
 func c13e2e(pre [][]c13row, rows []c13row, class string, inQuantifier bool) {
+	c13e2eText(pre, c13marshal(rows), rows, class, inQuantifier)
+}
+
+// rows of a summary FILE (as the explorer's saver wrote it), for the implementation-side oracle: the values of a row
+// are the file's own figures, the expected actions those of the file's own encoding
+func c13rowsOfText(text string) ([]c13row, bool) {
+	records, err := c20reader(text)
+	if err != nil || len(records) < 1 || len(records[0]) < 3 {
+		return nil, false
+	}
+	names := records[0][1 : len(records[0])-2]
+	rows := []c13row{}
+	for _, r := range records[1:] {
+		if len(r) != len(records[0]) {
+			return nil, false
+		}
+		row := c13row{label: r[0], enc: r[len(r)-2], note: r[len(r)-1], realBits: -1}
+		for i, n := range names {
+			v, perr := strconv.ParseFloat(r[1+i], 64)
+			if perr != nil {
+				return nil, false
+			}
+			row.vars = append(row.vars, solution.VariableSummary{Name: n, Value: v})
+		}
+		if bits, ok := c13decode(row.enc, 64); ok {
+			row.realBits = int64(bits)
+		}
+		rows = append(rows, row)
+	}
+	return rows, true
+}
+
+// one summary TEXT (rows = what it is supposed to contain, row by row) through a fresh engine
+func c13e2eText(pre [][]c13row, text string, rows []c13row, class string, inQuantifier bool) {
 	c13stats["e2e_"+class]++
 	mux := c13newMux()
 	defer protect(func() { mux.Shutdown() })
 	ref := mux.VerifC13Model()
 	nActions := len(ref.ManagementActions())
-	text := c13marshal(rows)
 
 	records, readErr := c20reader(text)
 	cj := J{"kind": "e2e", "class": class, "text": c20hex(text), "nrows": len(rows)}
@@ -361,8 +398,9 @@ func c13e2e(pre [][]c13row, rows []c13row, class string, inQuantifier bool) {
 			}
 		}
 		if inQuantifier {
-			c13oracle("summary written by the marshaller is rejected by POST /solutions",
-				J{"encoding": culprit, "encoding_class": c13encClass(culprit), "status": post.status, "response": post.body, "class": class})
+			c13oracle("summary written by the explorer (marshaller / saver) is rejected by POST /solutions",
+				J{"encoding": culprit, "encoding_class": c13encClass(culprit), "status": post.status, "response": post.body, "class": class,
+					"summary_text": text})
 		}
 	}
 
@@ -537,6 +575,119 @@ func c13vars(ref *catchment.Model, bits uint64) (solution.VariableSetSummary, st
 	return sum.Variables, string(sum.Actions)
 }
 
+// ---------- summary FILES written by the real scenario.Saver, driven the way the Runner drives it ----------
+
+// mutually non-dominated, pairwise different action sets (an archive keeps them all, in this order)
+func c13members(rng *prng, ref *catchment.Model, n int) []uint64 {
+	nActions := len(ref.ManagementActions())
+	work := ref.DeepClone()
+	work.Initialise(model.AsIs)
+	a := marchive.New()
+	var res []uint64
+	for tries := 0; len(res) < n && tries < 10000; tries++ {
+		bits := rng.next() & ((1 << uint(nActions)) - 1)
+		if rng.chance(0.25) {
+			bits &= rng.next()
+		}
+		if bits == 0 {
+			continue
+		}
+		for i := 0; i < nActions; i++ {
+			work.SetManagementAction(i, bits&(1<<uint(i)) != 0)
+		}
+		before := a.Len()
+		if a.AttemptToArchive(work) == marchive.StoredWithNoDominanceDetected && a.Len() == before+1 {
+			res = append(res, bits)
+		} else if a.Len() != before {
+			a = marchive.New()
+			res = nil
+		}
+	}
+	if len(res) != n {
+		panic("c13members: could not generate the requested number of members")
+	}
+	return res
+}
+
+// ONE saver instance serves the R runs of a scenario, one FinishedAnnealing event per run (scenario.Runner does
+// exactly this: SetDecompressionModel once, then every run's annealer notifies the same saver).  Every summary
+// file it writes is then loaded into a fresh engine configured with the same scenario.
+func c13saverScenario(rng *prng, ref *catchment.Model, fam string, name string, R int, nMembers int) {
+	nActions := len(ref.ManagementActions())
+	tmp, err := os.MkdirTemp("", "verif-c13-saver-")
+	if err != nil {
+		panic(err)
+	}
+	defer os.RemoveAll(tmp)
+	saver := scenario.NewSaver().
+		WithOutputType(solenc.OutputType("CSV")).
+		WithOutputLevel(scenario.OutputLevel("Summary")).
+		WithLogHandler(new(loggers.NullLogger))
+	saver.SetDecompressionModel(ref)
+	for r := 1; r <= R; r++ {
+		dir := filepath.Join(tmp, fmt.Sprintf("run%d", r))
+		saver = saver.WithOutputPath(dir)
+		runId := scenario.VerifC12CloneId(name, uint64(R), uint64(r))
+		event := observer.NewEvent(observer.FinishedAnnealing)
+		work := ref.DeepClone()
+		work.Initialise(model.AsIs)
+		apply := func(bits uint64) {
+			for i := 0; i < nActions; i++ {
+				work.SetManagementAction(i, bits&(1<<uint(i)) != 0)
+			}
+		}
+		if fam == "suppapitnarm" {
+			a := marchive.New()
+			a.SetId(runId)
+			for _, bits := range c13members(rng, ref, nMembers) {
+				apply(bits)
+				a.ForceIntoArchive(work)
+			}
+			event.WithAttribute(scenario.ModelArchive, *a)
+		} else {
+			bits := uint64(0)
+			for bits == 0 {
+				bits = rng.next() & ((1 << uint(nActions)) - 1)
+			}
+			if rng.chance(0.3) {
+				bits = []uint64{0x1E3, 0xF, 0x1E0, 0x148}[rng.intn(4)] & ((1 << uint(nActions)) - 1)
+			}
+			apply(bits)
+			st := new(marchive.ModelCompressor).Compress(work)
+			st.SetId(runId)
+			event.WithAttribute(scenario.CompressedModel, *st)
+		}
+		class := fmt.Sprintf("saver_file_%s_run%dof%d", fam, r, R)
+		if p, what := protect(func() { saver.ObserveEvent(*event) }); p {
+			c13oracle("the saver panicked while writing a run's summary", J{"class": class, "panic": what})
+			continue
+		}
+		files, _ := filepath.Glob(filepath.Join(dir, "*ummary.csv"))
+		if len(files) != 1 {
+			listing, _ := os.ReadDir(dir)
+			names := []string{}
+			for _, e := range listing {
+				names = append(names, e.Name())
+			}
+			c13oracle("the saver did not write exactly one summary file for a run", J{"class": class, "files": names})
+			continue
+		}
+		b, rerr := os.ReadFile(files[0])
+		if rerr != nil {
+			panic(rerr)
+		}
+		text := string(b)
+		rows, ok := c13rowsOfText(text)
+		if !ok {
+			c13oracle("summary file written by the saver is not a well-formed summary table", J{"class": class, "text": text})
+			continue
+		}
+		c13stats["saver_files"]++
+		c13stats["saver_rows"] += len(rows)
+		c13e2eText(nil, text, rows, class, true)
+	}
+}
+
 func runC13(args []string) {
 	tier := "quick"
 	if len(args) > 0 {
@@ -654,7 +805,7 @@ func runC13(args []string) {
 		c13e2e(nil, []c13row{asRow, realRow(1, 1, b)}, "one_real_row_"+c13encClass(realRow(1, 1, b).enc), true)
 	}
 	// (c) synthetic rows: arbitrary text over [0-9A-F:] in the Actions column (as for scenarios with more actions)
-	nSynth := 18
+	nSynth := 12
 	if tier == "thorough" {
 		nSynth = 300
 	}
@@ -711,6 +862,22 @@ func runC13(args []string) {
 			return r
 		}
 		c13e2e(nil, []c13row{renamed(asRow), renamed(realRow(1, 1, 3))}, "unknown_variable_column", false)
+	}
+
+	// ---- 2e. summary FILES written by the real scenario.Saver: one saver, R runs, both annealer families ----
+	{
+		type sc struct {
+			fam  string
+			R, n int
+		}
+		plan := []sc{{"kirkpatrick", 1, 1}, {"kirkpatrick", 2, 1}, {"kirkpatrick", 3, 1}, {"suppapitnarm", 1, 3}, {"suppapitnarm", 2, 3}}
+		if tier == "thorough" {
+			plan = append(plan, sc{"suppapitnarm", 3, 6}, sc{"kirkpatrick", 3, 1}, sc{"kirkpatrick", 2, 1}, sc{"suppapitnarm", 2, 12}, sc{"suppapitnarm", 3, 2},
+				sc{"kirkpatrick", 3, 1}, sc{"suppapitnarm", 1, 20})
+		}
+		for i, p := range plan {
+			c13saverScenario(rng, ref, p.fam, []string{"Kirkpatrick", "Suppapitnarm run", "P"}[i%3], p.R, p.n)
+		}
 	}
 
 	// ---- 3. regression cases: the former refutation witnesses of D9 (b0400cb) and of the stale pool (43fcffa)
